@@ -299,5 +299,37 @@ EDGE_TEXTS = [
     "a = { PUSH(b", "a = { PEEK[", "a = { PEEK[1", "a = { PEEK[1..", "a = { #", "a = { #t", "a = { #t =", "a = { ^", 'a = { ^"', "a = { !", "a = { &", "a = _", "a = _{", "}", "{", "=",
     'a = { "\\xZZ" }', 'a = { "\\u{110000}" }', 'a = { "\\u{D800}" }', 'a = { "\\u{ZZ}" }', 'a = { "\\u{}" }', 'a = { "\\u41" }', "a = { 'z'..'a' }", "a = { undefined_rule }",
     "a = { b }", "a = { a }", "a = { a* }", "a = _{ b } b = _{ c }", "a = { #t = undefined }", "a = { !undefined }", "a = { PUSH(undefined) }", "a = { b{99999} }",
+    "a = { (!a ~ ANY)* }", "a = @{ (!a ~ ANY)* }", "a = { (!b ~ ANY)* }\nb = { a }", "a = @{ (!(b | \"x\") ~ ANY)* }\nb = { \"y\" | a }", "a = { (!b ~ ANY)* }\nb = { c }\nc = { b | \"z\" }",
+    "a = { (!undefined ~ ANY)* }", "a = @{ (!(\"x\" | undefined) ~ ANY)* }", "WHITESPACE = _{ \" \" }\na = @{ (!b ~ ANY)* }\nb = { \"q\" | nope }",
     "a = { \"x\" }\n\n\n", "\n\n\na = {", "a = {\n\n\n", "a = { b }\n b", "é = { b }", "a = { é }", "a = { \"é\" ~ }", "\ufeffa = { b }", "a = { b }\x00", "a\x00 = { b }",
 ]
+
+
+# ----------------------------------------------------------------------------------------
+# escapes: well-formed and ill-formed \x / \u{} / simple escapes, in strings, CI strings, PUSH_LITERAL and range bounds
+
+ESC_ALPHA = list("0123456789abcdefABCDEFgGxX_+- {}\\\"'٤u")
+
+
+def escape_text(rnd: random.Random) -> str:
+    c = rnd.random()
+    if c < 0.35:
+        body = "\\x" + "".join(rnd.choice(ESC_ALPHA) for _ in range(rnd.choice([0, 1, 2, 2, 2, 3])))
+    elif c < 0.8:
+        n = rnd.choice([0, 1, 2, 3, 4, 5, 6, 7, 8])
+        inner = "".join(rnd.choice(ESC_ALPHA[:22] if rnd.random() < 0.7 else ESC_ALPHA) for _ in range(n))
+        body = "\\u" + rnd.choice(["{", "{", "{", ""]) + inner + rnd.choice(["}", "}", "}", ""])
+    else:
+        body = "\\" + rnd.choice(list("nrt0\\\"'/bfaeNvz1 "))
+    pre = rnd.choice(["", "", "a", "\\n"])
+    post = rnd.choice(["", "", "b", "!"])
+    ctx = rnd.random()
+    if ctx < 0.5:
+        return f'a = {{ "{pre}{body}{post}" }}'
+    if ctx < 0.65:
+        return f'a = {{ ^"{pre}{body}{post}" }}'
+    if ctx < 0.75:
+        return f'a = {{ PUSH_LITERAL("{pre}{body}{post}") }}'
+    if ctx < 0.9:
+        return f"a = {{ '{body}'..'z' }}"
+    return f"a = {{ 'a'..'{body}' }}"
